@@ -121,7 +121,7 @@ Example C18_ex_sym :
   let f := FacTObjArray "c" (FacGroup "T" [FacPrim "id" DI32; FacSym "m_err" 2]) in
   let r := RTup [RArr DU32 [0; 1]; RTup [RArr DI32 [7]; RArr DF64 [1; 2; 2; 3]]] in
   raw_ok f r = true /\ eager false f r = lazy false (preprocess_form false) f r /\
-  announced (preprocess_form false) f = Some (FList false (FRecord [("id", FNumpy DI32 []); ("m_err", FNumpy DF64 [2; 2])]%string)).
+  announced (preprocess_form false) f = Some (FList false (FRecord [("id", FNumpy DI32 []); ("m_err", FRegular 2 (FRegular 2 (FNumpy DF64 [])))]%string)).
 Proof. vm_compute. repeat split; reflexivity. Qed.
 
 Example C18_ex_digi_both :
